@@ -809,6 +809,18 @@ class Run:
             if Vr != b or abs(P1 - want) > 2e-5 * want + 2.:
                 self.fail(f'V-not-met:{pair}:boundary', f'specified V={b}: result V={Vr}, P={P1} at T={T1}; {"bubble" if b == 0.0 else "dew"} pressure there {want}')
 
+        # ---------------- information only: V-specified flashes WITH non-condensable gas ----------------
+        # The quantifier gives the V clause for mixtures within one homologous family (no gas), so nothing is judged here; the
+        # tag shows how often set_TV / set_PV return their bubble-composition fallback (a split that is not the equilibrium
+        # split at the returned T, P) instead of a solved state.  Unchanged code: P,V with V·F_volatile < F_gas; T,V: ~never.
+        if kb == 'V' and Fl > 0 and Fh == 0 and two and 0.02 < b < 0.98:
+            try:
+                c = restore(th, (arr(s.imol['l']), arr(s.imol['g']), T1, P1)); c.vle(T=T1, P=P1)
+                dev_ = float(np.abs(arr(c.imol['g']) - arr(s.imol['g'])).max() / (mol.sum() + Fl))
+                self.tags.append(f'V-with-gas:{pair}:' + ('fallback-split' if dev_ > 1e-4 else 'equilibrium'))
+            except Exception:
+                pass
+
         # ---------------- oracle C: V met within the solver's resolution ----------------
         if kb == 'V' and not inert and 0.02 < b < 0.98:
             Vr = Vfrac(s)
